@@ -67,3 +67,10 @@ pub fn read_slpp(bytes: &[u8], skip: bool) -> Outcome<Game> {
 	let opts = ppi::de::Opts { skip_frames: skip };
 	guard(|| ppi::read(bytes, Some(&opts)))
 }
+
+/// Reads a .slpp through a stream that fragments reads (the archive as it arrives from a pipe or socket).
+pub fn read_slpp_frag(bytes: &[u8], skip: bool, frag: crate::stream::Frag) -> Outcome<Game> {
+	let opts = ppi::de::Opts { skip_frames: skip };
+	let r = crate::stream::FragReader::new(bytes, frag);
+	guard(|| ppi::read(r, Some(&opts)))
+}
